@@ -296,3 +296,93 @@ def yaml_keys(ctx, rule='C12-R5'):
     # MPL_STYLE, the one key read from the live global
     ctx.check(PLOT_KEY in tree, rule, 'yaml', PLOT_KEY, str(path), 'MPL_STYLE missing from the defaults',
               instance="global['MPL_STYLE'] exists in the defaults")
+
+
+# ---------------------------------------------------------------------------------------------- C12-R6
+def set_prms_refusals(ctx, rule='C12-R6'):
+    """The YAML route is open to every file the caller can name: on the path of set_prms() that reaches the merge, every
+    test of the path object is a *positive* one (it is a Path, it exists, it is a file), the tests are made on the path
+    after a str has been converted, and a type test has the type on the right.  A negated test on that path means that
+    set_prms() goes on exactly when the file is missing and refuses the files that exist: the third documented way of
+    setting parameters is closed."""
+    fx = effects(ctx)
+    p = ctx.project
+    q = 'ampycloud.core.set_prms'
+    f = p.func(q, rule)
+    ctx.saw(f)
+    adj = 'ampycloud.utils.utils.adjust_nested_dict'
+    prm = ('p', f.params[0])
+    merges = [e for e in fx.deep_events(q) if e.kind == 'call' and call_head(e) == adj]
+    ctx.floor(rule, 'merge call of set_prms', len(merges), 1)
+    FILE_TESTS = ('exists', 'is_file')
+    OS_TESTS = ('os.path.exists', 'os.path.isfile', 'posixpath.exists', 'posixpath.isfile', 'genericpath.exists',
+                'genericpath.isfile')
+    n = 0
+
+    def about_path(t):
+        return T.contains(t, lambda y: y == prm)
+
+    def converted(x):
+        return T.contains(x, lambda y: tag(y) == 'call' and y[1] == ('g', 'pathlib.Path') and y[2] and about_path(y[2][0]))
+    PATHISH = {'pathlib.Path', 'pathlib.PurePath', 'os.PathLike'}
+
+    def isinst(l):
+        a = l[1] if tag(l) == 'not' else l
+        if tag(a) == 'call' and a[1] == ('g', 'builtins.isinstance') and len(a[2]) == 2:
+            return a, {c[1] for c in T.walk(a[2][1]) if tag(c) == 'g'}
+        return None, set()
+    for e in merges:
+        admits_str = 0
+        alts = T.dnf(e.guard) or [e.guard]
+        for alt in alts:
+            lits = guard_literals(alt)
+            # an alternative that cannot hold for a str argument is about paths given as Path objects: nothing to convert
+            for_str = True
+            for l in lits:
+                a, classes = isinst(l)
+                if a is None or a[2][0] != prm:
+                    continue
+                if tag(l) == 'not' and 'builtins.str' in classes:
+                    for_str = False
+                if tag(l) != 'not' and 'builtins.str' not in classes and classes & PATHISH:
+                    for_str = False
+            admits_str += for_str
+            for l in lits:
+                neg = tag(l) == 'not'
+                a = l[1] if neg else l
+                kind, subject = None, None
+                if tag(a) == 'mcall' and a[2] in FILE_TESTS and about_path(a[1]):
+                    kind, subject = f'.{a[2]}()', a[1]
+                elif tag(a) == 'call' and tag(a[1]) == 'g' and a[1][1] in OS_TESTS and a[2] and about_path(a[2][0]):
+                    kind = a[1][1]
+                elif isinst(l)[0] is not None and (about_path(a[2][0]) or about_path(a[2][1])):
+                    n += 1
+                    ctx.check(about_path(a[2][0]) and not about_path(a[2][1]), rule, q, e.node, e.loc(),
+                              f'set_prms tests {T.show(a, maxlen=120)}: the path is on the right of isinstance (TypeError for '
+                              'every path that is not itself a type)', instance='set_prms: isinstance(path, type)')
+                    classes = isinst(l)[1]
+                    if 'builtins.str' in classes or not classes & PATHISH:
+                        continue      # a test that lets strings through: either polarity is about something else
+                    kind = 'isinstance(., Path)'
+                    if for_str and not neg:
+                        n += 1
+                        ctx.check(converted(a[2][0]), rule, q, e.node, e.loc(),
+                                  f'set_prms requires {T.show(a, maxlen=120)} of a path that was never converted from str: a '
+                                  'file named by a string is refused', instance='set_prms: str converted before the Path test')
+                if kind is None:
+                    continue
+                n += 1
+                ctx.check(not neg, rule, q, e.node, e.loc(),
+                          f'set_prms reaches the merge only when {T.show(l, maxlen=120)}: the test is the wrong way round, files '
+                          'that exist are refused and the YAML route is closed',
+                          instance=f'set_prms: {kind} positive on the path to the merge')
+                if subject is not None and for_str:
+                    n += 1
+                    ctx.check(converted(subject), rule, q, e.node, e.loc(),
+                              f'set_prms calls {kind} on {T.show(subject, maxlen=100)}, which is the raw argument: a file named by '
+                              'a string has no such method', instance=f'set_prms: {kind} on the converted path')
+        n += 1
+        ctx.check(admits_str > 0, rule, q, e.node, e.loc(),
+                  f'no way to the merge is open to a path given as a str ({T.show(e.guard, maxlen=160)}): the documented '
+                  "set_prms('./ampycloud_default_prms.yml') is refused", instance='set_prms: a str path reaches the merge')
+    ctx.floor(rule, 'path tests on the way to the merge in set_prms', n, 3)
